@@ -319,7 +319,7 @@ Qed.
 End Gen.
 
 (* ------------------------------------------------------------------ instance: no invariant at all *)
-(* ProbeMounts cannot panic on a table the kernel model renders (KernelP.probe_of_total), so
+(* ProbeMounts cannot panic on a table the kernel model renders (C02KernelP.probe_of_total), so
    "never Diverged / Panicked" needs no invariant on the state. *)
 Definition TT : wpred := fun _ => True.
 Lemma TT_op bad e o : hoare TT bad ptrue (do_op e o) (fun _ => ptrue).
